@@ -71,6 +71,36 @@ func c13MakePool(n int, tricky bool) c13Pool {
 		}
 		all[4].mk = func() ap.Item { return ap.Object{ID: id(4), Type: ap.ArticleType, URL: id(3), Context: id(0)} }
 	}
+	switch c13TypePool {
+	case 1:
+		// the rarer object types, by pointer: membership goes through the same comparison whatever the struct
+		all[0].mk = func() ap.Item { return &ap.Place{ID: id(0), Type: ap.PlaceType, Latitude: 1.5} }
+		all[1].mk = func() ap.Item { return &ap.Profile{ID: id(1), Type: ap.ProfileType, Describes: id(0)} }
+		all[2].mk = func() ap.Item {
+			return &ap.Relationship{ID: id(2), Type: ap.RelationshipType, Subject: id(0), Object: id(1)}
+		}
+		all[3].mk = func() ap.Item { return &ap.Tombstone{ID: id(3), Type: ap.TombstoneType, FormerType: ap.NoteType} }
+		all[4].mk = func() ap.Item {
+			return &ap.Question{ID: id(4), Type: ap.QuestionType, OneOf: ap.ItemCollection{id(0), id(1)}}
+		}
+		for i, n := range []string{"place0", "profile1", "relationship2", "tombstone3", "question4"} {
+			all[i].name = n
+		}
+	case 2:
+		// intransitive activities and the collection types as members, and the value forms of two rarer types
+		all[0].mk = func() ap.Item { return &ap.IntransitiveActivity{ID: id(0), Type: ap.ArriveType, Actor: id(1)} }
+		all[1].mk = func() ap.Item {
+			return &ap.Collection{ID: id(1), Type: ap.CollectionType, TotalItems: 1, Items: ap.ItemCollection{id(0)}}
+		}
+		all[2].mk = func() ap.Item {
+			return &ap.OrderedCollectionPage{ID: id(2), Type: ap.OrderedCollectionPageType, PartOf: id(1)}
+		}
+		all[3].mk = func() ap.Item { return ap.Place{ID: id(3), Type: ap.PlaceType, Longitude: 2.5} }
+		all[4].mk = func() ap.Item { return ap.Relationship{ID: id(4), Type: ap.RelationshipType, Subject: id(3)} }
+		for i, n := range []string{"arrive0", "collection1", "orderedpage2", "placeval3", "relationshipval4"} {
+			all[i].name = n
+		}
+	}
 	p := c13Pool{}
 	for i := 0; i < n; i++ {
 		p.names = append(p.names, all[i].name)
@@ -79,6 +109,8 @@ func c13MakePool(n int, tricky bool) c13Pool {
 	}
 	return p
 }
+
+var c13TypePool int // 1, 2: pools whose members are values of the rarer vocabulary types
 
 type c13Op struct {
 	kind string // append | append2 | contains | remove
@@ -357,10 +389,11 @@ func c13Run(c *engine.Ctx) {
 	type cfg struct {
 		pool, depth int
 		tricky      bool
+		types       int
 	}
-	cfgs := []cfg{{5, 3, false}, {4, 4, false}, {5, 3, true}, {-5, 3, false}}
+	cfgs := []cfg{{5, 3, false, 0}, {4, 4, false, 0}, {5, 3, true, 0}, {-5, 3, false, 0}, {5, 2, false, 1}, {5, 2, false, 2}}
 	if !c.Quick() {
-		cfgs = []cfg{{4, 5, false}, {5, 4, false}, {5, 4, true}, {-5, 4, false}}
+		cfgs = []cfg{{4, 5, false, 0}, {5, 4, false, 0}, {5, 4, true, 0}, {-5, 4, false, 0}, {5, 3, false, 1}, {5, 3, false, 2}}
 	}
 	// pools of ids that collide pairwise under a common 32-bit hash: every history of depth <= 2 (quick) / 3 (thorough)
 	cols := universe.CollidingIDs()
@@ -410,7 +443,9 @@ func c13Run(c *engine.Ctx) {
 			cf.pool = -cf.pool
 			c13CrossRefs = true
 		}
+		c13TypePool = cf.types
 		pool := c13MakePool(cf.pool, cf.tricky)
+		c13TypePool = 0
 		crossRefs := c13CrossRefs
 		c13CrossRefs = false
 		for _, kind := range c13Kinds {
